@@ -172,21 +172,28 @@ func (ms *Modules) resolveIdentities() []error {
 			ms.typeDict.identities.dict[keyName] = *r
 		}
 
-		// Hoist up all identities in our included submodules.
+		// Hoist up all identities in our included submodules, and in the
+		// submodules those include in turn (their nodes are merged into
+		// the module as well).
 		// We could just do a range on ms.SubModules, but that
 		// might process a submodule that no module included.
-		for _, in := range mod.Include {
-			if in.Module == nil {
-				continue
-			}
-			if module(in.Module) == nil {
-				errs = append(errs, fmt.Errorf("%s: can't find the module that submodule %s belongs to", Source(in), in.Module.Name))
-				continue
-			}
-			for _, i := range in.Module.Identities() {
-				i.Values = nil
-				keyName, r := newResolvedIdentity(in.Module, i)
-				ms.typeDict.identities.dict[keyName] = *r
+		hoisted := map[*Module]bool{}
+		for todo := []*Module{mod}; len(todo) > 0; todo = todo[1:] {
+			for _, in := range todo[0].Include {
+				if in.Module == nil || hoisted[in.Module] {
+					continue
+				}
+				hoisted[in.Module] = true
+				if module(in.Module) == nil {
+					errs = append(errs, fmt.Errorf("%s: can't find the module that submodule %s belongs to", Source(in), in.Module.Name))
+					continue
+				}
+				for _, i := range in.Module.Identities() {
+					i.Values = nil
+					keyName, r := newResolvedIdentity(in.Module, i)
+					ms.typeDict.identities.dict[keyName] = *r
+				}
+				todo = append(todo, in.Module)
 			}
 		}
 	}
